@@ -35,6 +35,7 @@ type checkCfg struct {
 	Rule     string
 	Assume   []string
 	Workers  int
+	RaceID   string // non-empty: additionally run this worker check on a plain -race build and scan its stderr
 }
 
 func dur(q, t int) map[string]time.Duration {
@@ -268,6 +269,7 @@ func runShard(bin, id, tier string, shard, nshards int, hashFile string, budget 
 		cmd.Wait()
 		pr.Close()
 		if done {
+			wr.stderrs = append(wr.stderrs, stderr.String())
 			return wr
 		}
 		// the worker died or hung while running case `last`
@@ -541,7 +543,6 @@ func main() {
 	obs := map[int]string{}
 	for _, r := range results {
 		mergeSummary(&total, r.sum)
-		fails = append(fails, r.fails...)
 		deaths += r.deaths
 		for k, v := range r.obs {
 			obs[k] = v
@@ -549,6 +550,51 @@ func main() {
 	}
 	distinct := countHashes(hashFiles)
 
+	// ---- auxiliary free-running pass under the Go race detector
+	raceRuns, raceReports := 0, 0
+	if cfg.RaceID != "" {
+		raceBin, _ := buildVariant(filepath.Join(work, "race"), "plain", true)
+		var rmu sync.Mutex
+		var rwg sync.WaitGroup
+		seenRace := map[string]bool{}
+		for i := 0; i < 4; i++ {
+			rwg.Add(1)
+			go func(i int) {
+				defer rwg.Done()
+				rr := runShard(raceBin, cfg.RaceID, tier, i, 4, filepath.Join(work, fmt.Sprintf("racehashes-%d.bin", i)), budget, idle, false, nil)
+				rmu.Lock()
+				defer rmu.Unlock()
+				raceRuns += rr.sum.Evals
+				for _, f := range rr.fails {
+					fails = append(fails, f)
+				}
+				for _, se := range rr.stderrs {
+					for _, blk := range strings.Split(se, "WARNING: DATA RACE")[1:] {
+						raceReports++
+						site := "?"
+						for _, ln := range strings.Split(blk, "\n") {
+							if strings.Contains(ln, "/repo/") {
+								site = strings.TrimSpace(ln)
+								if p := strings.Index(site, " +0x"); p > 0 {
+									site = site[:p]
+								}
+								break
+							}
+						}
+						if !seenRace[site] {
+							seenRace[site] = true
+							fails = append(fails, fail{Class: "RACE:data race reported by the Go race detector at " + site, Scenario: "free-running-race-detector-pass", Index: -1, Detail: firstN("WARNING: DATA RACE"+blk, 1500)})
+						}
+					}
+				}
+			}(i)
+		}
+		rwg.Wait()
+	}
+
+	for _, r := range results {
+		fails = append(fails, r.fails...)
+	}
 	// ---- conformance replay on the plain build
 	validated := 0
 	var confFails []fail
@@ -691,6 +737,8 @@ func main() {
 		"worker_deaths_attributed":      deaths,
 		"unconfirmed_on_plain_build":    unconfirmed,
 		"variant":                       cfg.Variant,
+		"race_detector_runs":            raceRuns,
+		"race_detector_reports":         raceReports,
 		"build":                         buildInfo,
 	}
 	if total.Evals < 1 {
